@@ -45,7 +45,29 @@ type c13Prov[T number] struct {
 	d       cardinality.Duplex[T]
 	wrapped bool
 	dead    bool // its mutex is held forever by a leaked goroutine
+	spy     *c13Spy[T]
 }
+
+// c13Spy is the provider INSIDE a thread-safe wrapper (kinds spy32/spy64): it is the plain bitmap, and remembers the
+// operand object the wrapper handed to the last binary operation — the wrapper promises a private snapshot of a
+// wrapper operand, so that object must not follow later changes of the operand.
+type c13Spy[T number] struct {
+	cardinality.Duplex[T]
+	last *cardinality.Provider[T]
+	gate *func() // when set: called after the operand was handed over and before the real operation runs (the wrapper's lock is held)
+}
+
+func (s c13Spy[T]) got(o cardinality.Provider[T]) {
+	*s.last = o
+	if g := *s.gate; g != nil {
+		g()
+	}
+}
+func (s c13Spy[T]) Or(o cardinality.Provider[T])     { s.got(o); s.Duplex.Or(o) }
+func (s c13Spy[T]) And(o cardinality.Provider[T])    { s.got(o); s.Duplex.And(o) }
+func (s c13Spy[T]) AndNot(o cardinality.Provider[T]) { s.got(o); s.Duplex.AndNot(o) }
+func (s c13Spy[T]) Xor(o cardinality.Provider[T])    { s.got(o); s.Duplex.Xor(o) }
+func (s c13Spy[T]) Clone() cardinality.Duplex[T]     { return s.Duplex.Clone() } // a plain bitmap, as for any wrapper
 
 type c13Runner struct {
 	stats *Stats
@@ -239,6 +261,10 @@ func c13New[T number](kind string) *c13Prov[T] {
 	}
 	if strings.HasPrefix(kind, "ts") {
 		return &c13Prov[T]{d: cardinality.ThreadSafeDuplex(d), wrapped: true}
+	}
+	if strings.HasPrefix(kind, "spy") {
+		spy := &c13Spy[T]{Duplex: d, last: new(cardinality.Provider[T]), gate: new(func())}
+		return &c13Prov[T]{d: cardinality.ThreadSafeDuplex[T](*spy), wrapped: true, spy: spy}
 	}
 	return &c13Prov[T]{d: d}
 }
@@ -448,6 +474,39 @@ func c13Step[T number](r *c13Runner, m map[string]*c13Prov[T], bits int, t []str
 		np := &c13Prov[T]{d: c, wrapped: src.wrapped}
 		m[t[1]] = np
 		return "ok " + c13Obs(np), true
+	case len(t) == 4 && t[0] == "opprivate":
+		// opprivate <a> <b> <v>: a is a spy wrapper whose last binary operation had the wrapper b as operand. b.Add(v), then:
+		// does the operand object a's inner provider was given contain v? `true` = it was a private snapshot
+		a, b := get(t[1]), get(t[2])
+		if a == nil {
+			return "", false
+		}
+		vs, ok := c13ParseVals[T](t[3:], bits)
+		if b == nil || !ok || a.spy == nil || *a.spy.last == nil || !b.wrapped || a.dead || b.dead {
+			return "bad-op", true
+		}
+		given, isDuplex := (*a.spy.last).(cardinality.Duplex[T])
+		if !isDuplex {
+			return "bad-op", true
+		}
+		private := false
+		if !c13Call(func() { b.d.Add(vs[0]); private = !given.Contains(vs[0]) }) {
+			return "deadlock", true
+		}
+		r.stats.Inc("op.opprivate")
+		return fmt.Sprintf("%v %s", private, c13Obs(b)), true
+	case len(t) == 7 && t[0] == "fillrace" && c13IsOp(t[1]):
+		a, b := get(t[2]), get(t[3])
+		if a == nil {
+			return "", false
+		}
+		base, e1 := strconv.ParseUint(t[4], 10, 64)
+		m, e2 := strconv.Atoi(t[5])
+		rounds, e3 := strconv.Atoi(t[6])
+		if b == nil || a == b || e1 != nil || e2 != nil || e3 != nil || !a.wrapped || !b.wrapped || a.dead || b.dead || m < 1 || m > 100000 {
+			return "bad-op", true
+		}
+		return c13FillRace(r, t[1], a, b, base, m, rounds, bits), true
 	case len(t) == 5 && t[0] == "eachcall":
 		// eachcall <x> <k> remove|cadd|add|contains <y>: x.Each(func(v){ y.M(v); return visited < k })  (k = 0: all); y is
 		// ANOTHER provider: a clone of x, an operand, an unrelated wrapper — the delegate runs while x's lock is held
@@ -736,6 +795,165 @@ func c13Step[T number](r *c13Runner, m map[string]*c13Prov[T], bits int, t []str
 	return "", false
 }
 
+// value i of the writer's sequence in fillrace: alternately in a low and in a high chunk (9 chunks / 9 sub-bitmaps up), so that
+// a reader walking the containers in key order while they grow sees something that is NOT a prefix of the sequence
+func c13FillSeq(base uint64, bits, i int) uint64 {
+	stride := uint64(9) << 16
+	if bits == 64 {
+		stride = uint64(9) << 32
+	}
+	return base + uint64(i%2)*stride + uint64(i/2)
+}
+
+// fillrace <op> <a> <b> <base> <m> <rounds>: the operand wrapper b is EMPTY when a.op(b) starts and a writer fills it with
+// the sequence c13FillSeq while the operation runs. The wrapper snapshots b under b's lock, so whatever the interleaving
+// the result is op(a0, P) for some PREFIX P of the sequence. Every round starts from the same a0; a0 and an empty b are
+// restored at the end. When a is a spy wrapper the interleaving is pinned: the writer starts only after a's inner provider has
+// been handed the operand (so the snapshot is the EMPTY set, exactly), and the real operation runs while the writer is
+// half-way through — a result other than op(a0, ∅) means the operand object is not a snapshot.
+func c13FillRace[T number](r *c13Runner, op string, a, b *c13Prov[T], base uint64, m, rounds, bits int) string {
+	a0 := a.d.Slice()
+	inA0 := make(map[T]bool, len(a0))
+	for _, v := range a0 {
+		inA0[v] = true
+	}
+	bad := 0
+	detail := ""
+	var pan any
+	for round := 0; round < rounds && pan == nil; round++ {
+		a.d.Clear()
+		a.d.Add(a0...)
+		b.d.Clear()
+		start := make(chan struct{})
+		var progress atomic.Int64
+		gated := a.spy != nil
+		handed := make(chan struct{})
+		if gated {
+			once := false
+			*a.spy.gate = func() {
+				if once {
+					return
+				}
+				once = true
+				close(handed)
+				for progress.Load() < int64(m/2) {
+					runtime.Gosched()
+				}
+			}
+		}
+		var wg sync.WaitGroup
+		wg.Add(2)
+		go func() {
+			defer wg.Done()
+			defer func() {
+				if p := recover(); p != nil {
+					pan = p
+				}
+			}()
+			<-start
+			if gated {
+				<-handed
+			}
+			for i := 0; i < m; i++ {
+				b.d.Add(T(c13FillSeq(base, bits, i)))
+				progress.Add(1)
+			}
+		}()
+		go func() {
+			defer wg.Done()
+			defer func() {
+				if p := recover(); p != nil {
+					pan = p
+				}
+			}()
+			<-start
+			for spin := round % 7; spin > 0; spin-- {
+				runtime.Gosched()
+			}
+			c13Binop(a.d, op, cardinality.Provider[T](b.d))
+		}()
+		close(start)
+		wg.Wait()
+		if gated {
+			*a.spy.gate = nil
+		}
+		if pan != nil {
+			break
+		}
+		after := map[T]bool{}
+		for _, v := range a.d.Slice() {
+			after[v] = true
+		}
+		// R_k = op(a0, first k values); diff = |R_k △ after|, maintained incrementally
+		cur := map[T]bool{}
+		if op != "and" {
+			for v := range inA0 {
+				cur[v] = true
+			}
+		}
+		diff := 0
+		for v := range cur {
+			if !after[v] {
+				diff++
+			}
+		}
+		for v := range after {
+			if !cur[v] {
+				diff++
+			}
+		}
+		set := func(v T, present bool) {
+			if cur[v] == present {
+				return
+			}
+			if cur[v] == after[v] {
+				diff++
+			} else {
+				diff--
+			}
+			if present {
+				cur[v] = true
+			} else {
+				delete(cur, v)
+			}
+		}
+		okRound := diff == 0
+		for i := 0; i < m && !okRound && !gated; i++ {
+			v := T(c13FillSeq(base, bits, i))
+			switch op {
+			case "or":
+				set(v, true)
+			case "and":
+				if inA0[v] {
+					set(v, true)
+				}
+			case "andnot":
+				set(v, false)
+			case "xor":
+				set(v, !inA0[v])
+			}
+			okRound = diff == 0
+		}
+		if !okRound {
+			if bad == 0 {
+				detail = fmt.Sprintf("round=%d result-size=%d", round, len(after))
+			}
+			bad++
+		}
+	}
+	if pan != nil {
+		panic(pan)
+	}
+	a.d.Clear()
+	a.d.Add(a0...)
+	b.d.Clear()
+	r.stats.Inc("fillrace.runs." + op)
+	if bad > 0 {
+		return fmt.Sprintf("ok bad=%d %s | %s first=%s", bad, c13Obs(a), c13Obs(b), detail)
+	}
+	return fmt.Sprintf("ok bad=0 %s | %s", c13Obs(a), c13Obs(b))
+}
+
 // toidsrace <x> <lo> <n>: a writer slides a window over wrapper x (Add(lo+k); Remove(lo+k-8)) while a reader keeps
 // converting x with graph.DuplexToGraphIDs. Oracle for every conversion: no panic, strictly ascending (so no
 // duplicates), every ID was a member at some point of the run (initial content or one of the window values; 0 never is).
@@ -967,9 +1185,9 @@ func (r *c13Runner) step(t []string) string {
 			return "bad-op"
 		}
 		switch t[2] {
-		case "b32", "ts32":
+		case "b32", "ts32", "spy32":
 			r.m32[t[1]] = c13New[uint32](t[2])
-		case "b64", "ts64":
+		case "b64", "ts64", "spy64":
 			r.m64[t[1]] = c13New[uint64](t[2])
 		default:
 			return "bad-op"
@@ -1012,6 +1230,15 @@ func c13Join(vs []uint64) string {
 }
 
 // value pool biased to container boundaries: a*2^16+b (and a*2^32+b for 64 bit)
+// the boundary alphabet every suite draws from, for receiver and operand alike: 0, both sides of 2^16 and 2^32, 2^31 /
+// 2^63 (sign bit of the narrower signed type), and the two largest values of the width (2^64-1 = graph.ID(-1))
+func c13Boundary(bits int) []uint64 {
+	if bits == 32 {
+		return []uint64{0, 65535, 65536, 65537, 1<<31 - 1, 1 << 31, 1<<32 - 2, 1<<32 - 1}
+	}
+	return []uint64{0, 65535, 65536, 65537, 1<<32 - 1, 1 << 32, 1<<32 + 1, 1<<63 - 1, 1 << 63, 1<<64 - 2, 1<<64 - 1}
+}
+
 func (g *c13Gen) pool(bits int, chunks, perChunk int, low bool) []uint64 {
 	r := g.rng
 	his := []uint64{0, 1, 2, 3, 5, 65535}
@@ -1046,6 +1273,14 @@ func (g *c13Gen) pool(bits int, chunks, perChunk int, low bool) []uint64 {
 			}
 			out = append(out, k<<16+o)
 		}
+	}
+	// always some boundary values (sparse: the dense material of `low` pools stays below 2^63)
+	b := c13Boundary(bits)
+	for i := 2 + r.Intn(4); i > 0; i-- {
+		out = append(out, Pick(r, b))
+	}
+	if r.Chance(1, 2) {
+		out = append(out, b[len(b)-1]) // the largest value of the width, often
 	}
 	return out
 }
@@ -1262,8 +1497,11 @@ func (c13Suite) genMain(g *c13Gen, tier string) {
 					g.line("add r 1 2 3 65535 65536 65537 131072")
 					g.line("add o 2 3 4 65536 196608")
 					if bits == 64 {
-						g.line("add r 4294967296 4294967297 281474976710656")
-						g.line("add o 4294967297 8589934592")
+						g.line("add r 4294967296 4294967297 281474976710656 9223372036854775808 18446744073709551614")
+						g.line("add o 4294967297 8589934592 9223372036854775807 18446744073709551614 18446744073709551615")
+					} else {
+						g.line("add r 2147483648 4294967294")
+						g.line("add o 2147483647 4294967294 4294967295")
 					}
 					g.line("%s r o", op)
 					rn := "r"
@@ -1308,11 +1546,11 @@ func (c13Suite) genMain(g *c13Gen, tier string) {
 		}
 	}
 	// 2. exhaustive small scope for the iterate-while-remove fallbacks
-	u32 := []uint64{0, 1, 65536, 65537, 131072}
-	u64 := []uint64{0, 1, 65536, 4294967296, 4294967297}
+	u32 := []uint64{0, 1, 65536, 65537, 4294967295}
+	u64 := []uint64{0, 1, 65536, 4294967296, 18446744073709551615}
 	if thorough {
-		u32 = []uint64{0, 1, 2, 65536, 65537, 131072, 196608}
-		u64 = []uint64{0, 1, 65536, 65537, 4294967296, 4294967297, 8589934592}
+		u32 = []uint64{0, 1, 65536, 65537, 4294967295, 131072, 4294967294}
+		u64 = []uint64{0, 1, 65536, 4294967296, 18446744073709551615, 4294967297, 18446744073709551614}
 	}
 	g.exhaustive(32, "b32", u32)
 	g.exhaustive(64, "b64", u64)
@@ -1367,6 +1605,33 @@ func (c13Suite) genMain(g *c13Gen, tier string) {
 		g.line("slice y")
 		g.line("or z x")
 		g.line("card z")
+		// the operand object a wrapper hands to its inner provider is a private snapshot of a wrapper operand — also when the
+		// operand is EMPTY, was just cleared, or is the largest value only; and a later change of the operand never reaches the
+		// receiver (no aliasing), for every binary operation
+		for _, op := range c13Ops {
+			for variant := 0; variant < 3; variant++ {
+				g.begin(fmt.Sprintf("operand-snapshot %s ts%d v%d", op, bits, variant))
+				bd := c13Boundary(bits)
+				g.line("new a spy%d", bits)
+				g.line("new b ts%d", bits)
+				g.line("add a 1 2 3 65536 %d", bd[len(bd)-1])
+				switch variant {
+				case 1:
+					g.line("add b 2 7 65536 %d", bd[len(bd)-2])
+				case 2:
+					g.line("add b 5 6")
+					g.line("clear b")
+				}
+				g.line("%s a b", op)
+				g.line("opprivate a b 9")
+				g.line("slice a")
+				g.line("add b 3 70000")
+				g.line("slice a")
+				g.line("%s a b", op)
+				g.line("opprivate a b %d", bd[len(bd)-1]-1)
+				g.line("slice a")
+			}
+		}
 		// delegates of Each that call OTHER providers (clone of the receiver, an unrelated wrapper, an operand): the
 		// receiver's lock is held, the other provider has its own — every call returns
 		g.begin(fmt.Sprintf("nested-each ts%d", bits))
@@ -1434,6 +1699,10 @@ func (c13Suite) genRun(g *c13Gen, tier string) {
 			g.line("add o %d %d %d", base, base+1, base+65535)
 		}
 		g.line("addrange p %d 40000 1", base+20000)
+		bd := c13Boundary(bits)
+		g.line("add r %d %d", Pick(r, bd), bd[len(bd)-1])
+		g.line("add o %d %d", Pick(r, bd), Pick(r, bd[len(bd)-2:]))
+		g.line("add p %d", Pick(r, bd))
 		for k := 2 + r.Intn(4); k > 0; k-- {
 			switch r.Intn(6) {
 			case 0:
@@ -1473,6 +1742,9 @@ func (c13Suite) genAlias(g *c13Gen, tier string) {
 			if r.Bool() {
 				g.line("add o %d", hi+uint64(200+r.Intn(100)))
 			}
+			bd := c13Boundary(64)
+			g.line("add r %d %d", Pick(r, bd), bd[len(bd)-1])
+			g.line("add o %d", Pick(r, bd[4:]))
 			g.line("xor r o")
 			for k := 1 + r.Intn(3); k > 0; k-- {
 				switch r.Intn(4) {
@@ -1498,6 +1770,9 @@ func (c13Suite) genAlias(g *c13Gen, tier string) {
 			base := uint64(r.Intn(4)) << 16
 			g.line("add r %d %d %d", base+uint64(r.Intn(3000)), base+uint64(3000+r.Intn(3000)), base+131072+7)
 			g.line("addrange o %d %d 1", base+uint64(r.Intn(100)), 4097+r.Intn(2000))
+			bd := c13Boundary(32)
+			g.line("add r %d %d", Pick(r, bd), bd[len(bd)-1])
+			g.line("add o %d", Pick(r, bd))
 			g.line("xor r o")
 			g.line("add r %d", base+uint64(60000+r.Intn(100)))
 			g.line("slice o")
@@ -1539,10 +1814,12 @@ func (c13Suite) genHeap(g *c13Gen, tier string) {
 			for _, k := range []uint64{0, 1, 2, 3, 5} {
 				keys = append(keys, k<<32, k<<32+65536)
 			}
+			keys = append(keys, 1<<63, 1<<64-4, 1<<32-2) // +0..3 reaches 2^64-1 and crosses 2^32
 		} else {
 			for _, k := range []uint64{0, 1, 2, 3, 5} {
 				keys = append(keys, k<<16)
 			}
+			keys = append(keys, 1<<31, 1<<32-4, 1<<16-2) // +0..3 reaches 2^32-1 and crosses 2^16
 		}
 		val := func() uint64 { return Pick(r, keys) + uint64(r.Intn(4)) }
 		for _, nm := range names {
@@ -1598,6 +1875,39 @@ func (c13Suite) genConc(g *c13Gen, tier string) {
 	if tier == "thorough" {
 		np = 40
 	}
+	// the operand wrapper is EMPTY when the binary operation starts and is filled while it runs: all ops x both widths
+	rounds := 120
+	if tier == "thorough" {
+		rounds = 1500
+	}
+	for _, bits := range []int{32, 64} {
+		for _, op := range c13Ops {
+			for _, ak := range []string{"ts", "spy"} {
+				g.begin(fmt.Sprintf("fillrace %s %s%d", op, ak, bits))
+				g.line("new a %s%d", ak, bits)
+				g.line("new b ts%d", bits)
+				base := uint64(1+r.Intn(3)) << 16
+				if bits == 64 {
+					base += uint64(1+r.Intn(3)) << 32
+				}
+				bd := c13Boundary(bits)
+				m := 200 + r.Intn(200)
+				// a0: some values of the fill sequence (both chunks), some strangers, the largest value of the width
+				vals := []uint64{bd[len(bd)-1], base + 60000, c13FillSeq(base, bits, 0), c13FillSeq(base, bits, 1)}
+				for k := 0; k < 12; k++ {
+					vals = append(vals, c13FillSeq(base, bits, r.Intn(m)))
+				}
+				g.line("add a %s", c13Join(vals))
+				rr := rounds
+				if ak == "spy" {
+					rr = 10 // pinned interleaving: every round shows it
+				}
+				g.line("fillrace %s a b %d %d %d", op, base, m, rr)
+				g.line("slice a")
+				g.stats.Inc("fillrace_cases")
+			}
+		}
+	}
 	// consumers and contention: conversions under a concurrent writer; the same values probed by several goroutines
 	nr := 4
 	if tier == "thorough" {
@@ -1614,7 +1924,8 @@ func (c13Suite) genConc(g *c13Gen, tier string) {
 		}
 		g.begin(fmt.Sprintf("toidsrace ts%d", bits))
 		g.line("new x ts%d", bits)
-		g.line("add x %d %d %d", base+uint64(40000+r.Intn(100)), base+uint64(50000+r.Intn(100)), base+uint64(60000))
+		bd := c13Boundary(bits)
+		g.line("add x %d %d %d %d %d", base+uint64(40000+r.Intn(100)), base+uint64(50000+r.Intn(100)), base+uint64(60000), bd[len(bd)-1], Pick(r, bd[1:]))
 		g.line("toids x")
 		g.line("toidsrace x %d %d", base+uint64(1+r.Intn(50)), 15000+r.Intn(15000))
 		g.line("toids x")
@@ -1622,6 +1933,7 @@ func (c13Suite) genConc(g *c13Gen, tier string) {
 		g.begin(fmt.Sprintf("caddrace ts%d", bits))
 		g.line("new x ts%d", bits)
 		g.line("addrange x %d %d 3", base+uint64(r.Intn(10)), 200+r.Intn(200))
+		g.line("add x %d %d", bd[len(bd)-1], Pick(r, bd))
 		g.line("caddrace x %d %d %d", base, 8000+r.Intn(8000), 2+r.Intn(7))
 		g.stats.Inc("caddrace_cases")
 	}
@@ -1637,8 +1949,9 @@ func (c13Suite) genConc(g *c13Gen, tier string) {
 		if bits == 64 && r.Bool() {
 			base += uint64(1+r.Intn(3)) << 32
 		}
-		g.line("add x %d %d", base+uint64(70000+r.Intn(100)), base+uint64(80000+r.Intn(100)))
-		g.line("add o %d", base+uint64(90000+r.Intn(100)))
+		bd := c13Boundary(bits)
+		g.line("add x %d %d %d", base+uint64(70000+r.Intn(100)), base+uint64(80000+r.Intn(100)), bd[len(bd)-1])
+		g.line("add o %d %d", base+uint64(90000+r.Intn(100)), Pick(r, bd[len(bd)-2:]))
 		g.line("pairs x o %d %d", base+uint64(2*r.Intn(50)), 8000+r.Intn(8000))
 		g.stats.Inc("pairs_cases")
 	}
